@@ -209,7 +209,7 @@ class C16:
                    'absence of violations over the explored schedules is not a proof of linearizability']
 
     def budget(self, tier):
-        return 160 if tier == 'quick' else 5000
+        return 160 if tier == 'quick' else 2000
 
     def prepare(self, tree, tier):
         top = os.path.dirname(tree.dir)
